@@ -2,7 +2,13 @@
 
 use super::types::FixtureDefinition;
 use super::FixtureDatabase;
+#[cfg(not(pytest_language_server_verif))]
 use std::collections::{BTreeMap, BTreeSet, HashMap, HashSet};
+// verification hook: solver-friendly set/map stand-ins of the harness crate (see /verif/DESIGN.md §9)
+#[cfg(pytest_language_server_verif)]
+use crate::verif_collections::{HashMap, HashSet};
+#[cfg(pytest_language_server_verif)]
+use std::collections::{BTreeMap, BTreeSet};
 use std::path::{Path, PathBuf};
 
 impl FixtureDatabase {
